@@ -9,11 +9,30 @@ CONFIG = dict(
              'branches, Merge, emerging roots (dagmono: committer times monotone along every history); far-sat = times from year 1 to year '
              '3.6e10 (spans beyond +-292 years; the only stream, with corpus-sat/replay-sat, that leaves the range of time.Duration); odd = tick sizes 1 ns .. 2^62 ns with nanosecond times; malformed = tick size 0 / '
              'negative / overflowing, index 0 missing or repeated, replayed root commits, unknown branches; floor = FloorTime alone. '
+             'Strengthening round: an (init v) operation initialises the SAME item again and drops the forks (v=0 Initialize only; Configure + '
+             'Initialize with v=1 the facts map of the previous Configure as it is, v=2 a fresh facts map, v=3 the same map with the option '
+             'set again), and the registry is read twice at the end of every analysis: the private map and the map captured from '
+             'facts[TicksSinceStart.Commits] right after Configure, which is what a downstream item holds. '
+             'exlife = every pair of analyses of <=2 commits x 4 init variants x same/fresh hashes; life = 2-4 analyses (lin / dag shaped, '
+             'possibly empty) on one item; tz = committer zones 0, whole hours, +-30 and +-45 minute zones (+05:30, +05:45, -03:30, +09:30, '
+             '+12:45, +08:45, -09:30, ...), zone changes along the history, x tick sizes 1 h .. 30 d and 30 min / 45 min / 90 min / 7 h / 13 h / 25 h / 36 h / 1 s / 1001 ms, '
+             'times around period boundaries counted in UTC and in local wall-clock time, FloorTime on the same instants; straddle = tick '
+             'VALUES at c-1, c, c+1 for c = 2^8, 2^10, 2^15, 2^16, 2^24, 2^31, 2^32; scale-* = a LARGE analysis followed by (init v) and a '
+             'second (short / the same history again / a second large one) and third analysis on the same item: scale-asc n = 1000, 1023, '
+             '1024, 1025 (x3 init variants, 1 h / 24 h / 7 d), 1026, 1100 (30 d), 2000 (1 h, 90 min), 10^4 distinct ticks; scale-walk 2000 / 10^4 commits of a random '
+             'walk; scale-desc 1025 / 2000 and scale-onetick 1023 / 1100 / 2100 commits under ONE tick (onetick: monotone times, a merge '
+             'commit replayed n entries deep); scale-period period numbers periodic with 63, 64, 65, 1023, 1024, 1025; scale-branches 255, '
+             '256, 257, 1000 branches alive with pairwise merges; scale-chain a chain of 1100 forks; thorough: 32769, 65537, 10^5 (x2 '
+             'analyses) distinct ticks, 10^5-commit walks, 10^4 commits under one tick, 10^4 branches, 1000 branches x 100 commits, chain of '
+             '3000.  Cases with more than 300 operations or 40 clones are recorded compactly (tick per Consume; previousTick of every '
+             'branch, tick0 and both registries at the end of every analysis) and judged with the indexed model / segment-wise oracles. '
              'Tick sizes 1 h, 2 h, 5 h, 24 h, 7 d, 30 d. Non-trivial = at least 2 Consume calls; distinct = distinct configuration + '
              'operation list.',
         exhaustive_note='all sequences of up to 4 commits (tick 1 h) and up to 3 commits (24 h at 1970, 24 h at year 1, 7 d) whose times are taken from '
                         '{-d-1, -1, 0, +1, d-1, d, 2d+1} s around a period boundary, on 3 branch shapes (linear; fork after the first commit with '
-                        'the last commit replayed on both branches and Merge; second root from a pristine clone); thorough: up to 5 commits',
+                        'the last commit replayed on both branches and Merge; second root from a pristine clone); thorough: up to 5 commits; '
+                        'exlife: every pair of analyses on one item of up to 2 commits each (times from {-1, 0, d-1, d} s around a boundary, the second '
+                        'analysis 5 periods later) x 4 ways of initialising again x same / fresh hashes (24 h; thorough also 1 h and 7 d)',
         assumptions=[
             'times are modelled as unbounded integers of nanoseconds since Go\'s zero time; exact while the int64 second counter of time.Time does '
             'not overflow (the harness stays within |unix seconds| <= 2^60, i.e. year +-3.6e10)',
@@ -32,12 +51,20 @@ CONFIG = dict(
             'code by the replay of every harness case (tick, previousTick of every branch, tick0, commits[tick] after every step; registry at the end)',
             'Go package time itself is modelled, not verified',
             'read-only accessors internal/plumbing/verif_c19.go and re-exports verifapi/c19/c19.go (build tag verif)',
+            'lifecycle: Initialize (again) is modelled as the return to init_sys (new zero tick0, previousTick 0, registry emptied in place), so '
+            'every analysis between two initialisations is one model run; Configure with the facts map of the previous Configure is modelled by '
+            'reconfigure_same_facts (the option key "TicksSinceStart.TickSize" is also the key of the published fact, the int assertion fails, '
+            'the tick size falls back to 24 h); both are tied to the code by the replay of the life / exlife / scale streams',
+            'large cases: the driver keeps the model registry in a hash table and hands the extracted consume_branch_fast (= consume_branch, '
+            'C19_consume_fast) the one entry it touches, builds the branch histories itself and judges them in segments '
+            '(C19_history_in_segments); on every third small case the indexed model, histories and oracles are compared with the plain '
+            'extracted step / lineages / oracles and must agree',
         ],
         level_text='Coq theorems over all operation sequences of the Gallina model of TicksSinceStart: C19_floor (FloorTime = greatest multiple of d '
                    'from the zero time not after t), C19_tick (tick = max(prev, (t - t0) quot d), = max(prev, floor((t - t0)/d)) inside the '
                    'range of time.Duration, saturated outside, = prev for commits not after t0), C19_monotone (all inputs), C19_previous_tick, '
                    'C19_start / C19_tick_history / C19_commit_alone / C19_registry_exactly_once (runs shaped like Pipeline.Run), '
-                   'C19_registry_listed and C19_registry_scan (all inputs), C19_tick_refuted_beyond_292_years (witness of finding F17); all closed under the global context. The model is replayed against '
+                   'C19_registry_listed, C19_registry_only_consumed (the registry lists nothing but the commits of the current analysis, each under a tick it was given; oracle: C19_only_consumed_oracle) and C19_registry_scan (all inputs), C19_tick_refuted_beyond_292_years (witness of finding F17); all closed under the global context. The model is replayed against '
                    'the real code on every run.',
         level_note='Proved about the model, tied to the Go code by correspondence only. Modelled rather than verified: package time (Round, Sub '
                    'saturation, Add), reflect-based ForkCopyPipelineItem (shallow copy: tick0 pointer and commits map shared, previousTick and '
@@ -45,7 +72,10 @@ CONFIG = dict(
                    'commit) the tick is NOT the number of elapsed periods: known finding F17, proved as C19_tick_refuted_beyond_292_years, reported by '
                    'the replay as [duration-saturation] from the -sat streams, not repaired. '
                    'With non-monotone committer times a replayed merge commit can be listed under two different ticks '
-                   '(C19_example_replay_under_two_ticks); a commit without parents that is consumed twice is listed twice.',
+                   '(C19_example_replay_under_two_ticks); a commit without parents that is consumed twice is listed twice. '
+                   'Lifecycle: Initialize again = return to the initial state with the registry emptied in place (modelled, replayed); Configure '
+                   'again with the facts map of the previous Configure falls back to the 24 h default because option and fact share the key '
+                   '"TicksSinceStart.TickSize" (modelled as reconfigure_same_facts, observed on the code, outside the statement of C19).',
         technique='machine-checked proof in Coq over a Gallina model (invariants over all Consume/Fork/Merge sequences with ghost branch histories) '
                   '+ model/implementation correspondence replay with extracted oracles',
     )
